@@ -66,11 +66,18 @@ def depthRun (call : Nat → Option Nat) : List Ev → Nat → Option Nat
   | .other :: es, d => depthRun call es d
 
 /-- the limit each engine actually enforces for a configured `runtime.Config.StackDepthLimit` (0 = unset):
-the interpreter environment passes it to `newStackDepthLimiter`; the VM environment sets
-`conf.StackDepthLimit = defaultStackDepthLimit` unconditionally (fact `depth runtime.vmEnvironment.newVMConfig`). -/
+the interpreter environment passes it to `newStackDepthLimiter` (0 → `defaultStackDepthLimit`); the VM
+environment sets `conf.StackDepthLimit = vmStackDepthLimit(config.StackDepthLimit)`: the same limit plus
+one for the call frame of the entry point (facts `limit runtime.newStackDepthLimiter`,
+`limit runtime.vmStackDepthLimit`, `depth runtime.vmEnvironment.newVMConfig StackDepthLimit`).  (Go's
+`uint64`: the increment is skipped at `math.MaxUint64`, a depth no execution reaches; the model is over ℕ.) -/
 def defaultLimit : Nat := 2000
 def interpEffectiveLimit (configured : Nat) : Nat := if configured = 0 then defaultLimit else configured
-def vmEffectiveLimit (_configured : Nat) : Nat := defaultLimit
+def vmEffectiveLimit (configured : Nat) : Nat := interpEffectiveLimit configured + 1
+
+/-- the VM environment's limit before /repo bc0b586 / 4e6bf8c (kept for the witness theorems that say why
+the two fixes are needed): the default, whatever is configured, and no allowance for the entry frame -/
+def vmEffectiveLimitOld (_configured : Nat) : Nat := defaultLimit
 
 /-- `n` nested calls of a function from the entry point, as each engine counts them: the interpreter's
 limiter starts at 0 and does not count the entry point; the VM's call stack already holds the entry
@@ -79,5 +86,7 @@ def interpNested (configured n : Nat) : Option Nat :=
   depthRun (interpCall (interpEffectiveLimit configured)) (List.replicate n Ev.call) 0
 def vmNested (configured n : Nat) : Option Nat :=
   depthRun (vmCall (vmEffectiveLimit configured)) (List.replicate n Ev.call) 1
+def vmNestedOld (configured n : Nat) : Option Nat :=
+  depthRun (vmCall (vmEffectiveLimitOld configured)) (List.replicate n Ev.call) 1
 
 end Verif.Model.Metered
